@@ -35,3 +35,23 @@ PLAN["C18"] = {
     "quick": [{"test": "TestC18_History", "checks": 3000, "timeout": 600}],
     "thorough": [{"test": "TestC18_History", "checks": 6000, "shards": 16, "timeout": 1500}],
 }
+
+PLAN["C16"] = {
+    "level": "exploration",
+    "rule": ("rapid-generated parameter sets for both modes with every big integer drawn by byte length 0..40 (so <r, >=r, 2^256-1, "
+             "leading-zero magnitudes occur) plus an edge set, uint32 indices incl. 0 and 2^32-1, batch/depth 0..6, ragged and empty arrays. "
+             "Kinds: roundtrip (Unmarshal(Marshal(p)) == p field-wise, and the encoded text denotes the values in 0x-hex), doc (independently "
+             "written documents in lower/upper/zero-padded 0x-hex must decode to the denoted integers; canonical decimal: if accepted, equal), "
+             "malformed (one numeric string replaced by a non-number from a fixed pool, at a drawn position incl. nested arrays => error), "
+             "badindex (-1, 2^32, 1.5, \"7\", ... => error), wrongtype (number/bool/array/object where a numeric string belongs => error). "
+             "Non-trivial = a value >= 2^255 or shorter than 32 bytes, an empty or ragged array, or any doc/malformed/badindex/wrongtype case; "
+             "distinct = SHA-1 of the canonical case. Thorough adds native go fuzzing of both decoders (no panic; decoded non-negative sets re-encode stably)."),
+    "assumptions": A_COMMON + ["signs (+/-), underscores and 0b/0o prefixes in numeric strings are outside the statement and not asserted either way"],
+    "technique": "round-trip and differential property testing against an independent document writer/reader; native fuzzing (thorough)",
+    "level_text": ("Exploration: thousands of generated parameter sets and mutated documents per run; every decoder verdict is compared with an "
+                   "independent reading of the same text. Exhaustive over the malformed-number pool x position classes only statistically."),
+    "level_note": "trusts encoding/json and math/big; malformed pool is restricted to strings that denote no integer in any notation",
+    "quick": [{"test": "TestC16_Codec", "checks": 20000, "timeout": 600}],
+    "thorough": [{"test": "TestC16_Codec", "checks": 40000, "shards": 16, "timeout": 1500},
+                 {"fuzz": "FuzzParamsJSON", "fuzztime": "60s", "timeout": 600}],
+}
